@@ -25,6 +25,8 @@ from ...app_support.security_v2 import parse_certificate
 
 
 def verify_ecdsa(pub_key: ECC.EccKey, sig_ptrs: SignaturePtrs) -> bool:
+    if sig_ptrs.signature_value_buf is None:
+        return False
     verifier = DSS.new(pub_key, 'fips-186-3', 'der')
     h = SHA256.new()
     for content in sig_ptrs.signature_covered_part:
@@ -37,6 +39,8 @@ def verify_ecdsa(pub_key: ECC.EccKey, sig_ptrs: SignaturePtrs) -> bool:
 
 
 def verify_rsa(pub_key: RSA.RsaKey, sig_ptrs: SignaturePtrs) -> bool:
+    if sig_ptrs.signature_value_buf is None:
+        return False
     verifier = pkcs1_15.new(pub_key)
     h = SHA256.new()
     for content in sig_ptrs.signature_covered_part:
@@ -93,8 +97,12 @@ class EccChecker(KnownChecker):
     def _verify(cls, pub_key_bits, sig_ptrs) -> bool:
         if sig_ptrs.signature_info.signature_type != SignatureType.SHA256_WITH_ECDSA:
             return False
-        pub_key = ECC.import_key(bytes(pub_key_bits))
-        return verify_ecdsa(pub_key, sig_ptrs)
+        try:
+            pub_key = ECC.import_key(bytes(pub_key_bits))
+            return verify_ecdsa(pub_key, sig_ptrs)
+        except ValueError:
+            # key bits that are not a NIST-curve ECC key
+            return False
 
 
 class RsaChecker(KnownChecker):
@@ -102,7 +110,11 @@ class RsaChecker(KnownChecker):
     def _verify(cls, pub_key_bits, sig_ptrs) -> bool:
         if sig_ptrs.signature_info.signature_type != SignatureType.SHA256_WITH_RSA:
             return False
-        pub_key = RSA.import_key(bytes(pub_key_bits))
+        try:
+            pub_key = RSA.import_key(bytes(pub_key_bits))
+        except ValueError:
+            # key bits that are not an RSA key
+            return False
         return verify_rsa(pub_key, sig_ptrs)
 
 
@@ -115,6 +127,8 @@ class HmacChecker(KnownChecker):
 
 
 def verify_ed25519(pub_key: ECC.EccKey, sig_ptrs: SignaturePtrs) -> bool:
+    if sig_ptrs.signature_value_buf is None:
+        return False
     verifier = eddsa.new(pub_key, 'rfc8032')
     try:
         verifier.verify(b''.join(sig_ptrs.signature_covered_part), bytes(sig_ptrs.signature_value_buf))
@@ -128,7 +142,9 @@ class Ed25519Checker(KnownChecker):
     def _verify(cls, pub_key_bits, sig_ptrs) -> bool:
         if sig_ptrs.signature_info.signature_type != SignatureType.ED25519:
             return False
-        pub_key = ECC.import_key(pub_key_bits)
-        if not isinstance(pub_key, ECC.EccKey):
+        try:
+            pub_key = ECC.import_key(bytes(pub_key_bits))
+            return verify_ed25519(pub_key, sig_ptrs)
+        except ValueError:
+            # key bits that are not an Ed25519 key
             return False
-        return verify_ed25519(pub_key, sig_ptrs)
